@@ -64,6 +64,14 @@ pub struct Broker {
     /// the client may retain is a matter of the client's session, whatever the broker remembers)
     pub announced_max_packet: Option<Option<u32>>,
     pub last_connack_mp: Option<u32>,
+    /// Receive Maximum of the CONNACK that accepted the current connection; like a real broker the
+    /// model ends the connection with DISCONNECT 0x93 when the client exceeds it
+    pub announced_rm: u32,
+    pub rm_enforced: u32,
+    open_here: Vec<u16>,
+    /// identifiers of exchanges this broker has ended (terminal acknowledgement sent) and that
+    /// have not been started again by a non-DUP PUBLISH
+    ended: Vec<u16>,
     /// (identifier, encoded length, PUBREL seen) of every identifier-bearing request received in
     /// this broker session: what the client may still retain and would have to retransmit
     pub maybe_retained: Vec<(u16, u32, bool)>,
@@ -113,6 +121,10 @@ impl Broker {
             announced_max_qos: None,
             announced_max_packet: None,
             last_connack_mp: None,
+            announced_rm: 65535,
+            rm_enforced: 0,
+            open_here: Vec::new(),
+            ended: Vec::new(),
             maybe_retained: Vec::new(),
             epoch_uncertain: false,
             accepted_requests: 0,
@@ -148,6 +160,7 @@ impl Broker {
         self.connack_sent = false;
         self.client_disconnected = false;
         self.ping_unanswered = false;
+        self.open_here.clear();
     }
 
     pub fn queue(&mut self, tr: &mut Transport, packet: Option<Packet>, bytes: Vec<u8>, at: Option<u64>) {
@@ -247,6 +260,25 @@ impl Broker {
                     let kind = if pb.qos == 1 { OutKind::Pub1 } else { OutKind::Pub2 };
                     if !self.outstanding.iter().any(|o| o.pid == pid && o.kind == kind) {
                         self.outstanding.push(Outst { kind, pid });
+                    }
+                    // unresolved exchanges of the client on this broker: publishes waiting for their
+                    // first answer plus QoS 2 exchanges waiting for PUBCOMP
+                    // (counted per connection, like C06 does: PUBLISH packets received on this
+                    // connection whose exchange the broker has not ended yet)
+                    // (a DUP copy of an exchange the broker has already ended is a late duplicate:
+                    // the client is entitled to regard that exchange as resolved)
+                    if !pb.dup {
+                        self.ended.retain(|x| *x != pid);
+                    }
+                    if !self.open_here.contains(&pid) && !(pb.dup && self.ended.contains(&pid)) {
+                        self.open_here.push(pid);
+                    }
+                    let open = self.open_here.len() as u32;
+                    if open > self.announced_rm && self.connack_sent {
+                        self.rm_enforced += 1;
+                        self.send(tr, Packet::Disconnect { reason: Some(0x93), props: None });
+                        tr.eof = true;
+                        return;
                     }
                     if auto {
                         self.ack_outstanding(tr, self.outstanding.len() - 1, 0, AckForm::Short);
@@ -399,6 +431,7 @@ impl Broker {
             Handshake::Accept | Handshake::CancelAt(_) | Handshake::Fault(_) => {
                 if !can_resume {
                     self.outstanding.clear();
+                    self.ended.clear();
                     self.acked.clear();
                     self.q2_answered.clear();
                     self.b_inflight.clear();
@@ -415,6 +448,10 @@ impl Broker {
                     self.mps_shrinks_applied += 1;
                 }
                 self.last_connack_mp = mp;
+                self.announced_rm = match &p {
+                    Packet::ConnAck { props, .. } => props.iter().find_map(|x| if let Prop::ReceiveMaximum(q) = x { Some(*q as u32) } else { None }).unwrap_or(65535),
+                    _ => 65535,
+                };
                 self.announced_max_qos = match &p {
                     Packet::ConnAck { props, .. } => props.iter().find_map(|x| if let Prop::MaximumQoS(q) = x { Some(*q) } else { None }),
                     _ => None,
@@ -439,6 +476,7 @@ impl Broker {
                 // the broker did accept (its session state changes) but the answer is cut short
                 if !can_resume {
                     self.outstanding.clear();
+                    self.ended.clear();
                     self.acked.clear();
                     self.q2_answered.clear();
                     self.b_inflight.clear();
@@ -501,6 +539,17 @@ impl Broker {
             return; // cannot be acknowledged at all within the client's limit
         }
         self.outstanding.remove(i);
+        match o.kind {
+            OutKind::Pub1 | OutKind::Rel => {
+                self.open_here.retain(|x| *x != o.pid);
+                self.ended.push(o.pid);
+            }
+            OutKind::Pub2 if reason >= 0x80 => {
+                self.open_here.retain(|x| *x != o.pid);
+                self.ended.push(o.pid);
+            }
+            _ => {}
+        }
         match o.kind {
             OutKind::Pub2 => {
                 if !self.q2_answered.iter().any(|x| x.0 == o.pid) {
